@@ -97,7 +97,7 @@ Section OkGen.
   Proof.
     induction ids as [|j ids IH]; intros s Hs; cbn [rem_list].
     - split; [exact Hs|exact I].
-    - destruct (String.eqb j skip); [apply IH; exact Hs|].
+    - destruct (skipped skip j); [apply IH; exact Hs|].
       destruct (Hrec s j Hs) as [H1 H2].
       destruct (rem_rec s j now) as [s1 o]. cbn [fst snd] in *.
       destruct o; try contradiction; [apply IH; exact H1|split; [exact H1|exact I]].
@@ -135,8 +135,10 @@ Qed.
 
 (** * Exactly the closure *)
 
+(** (no condition on the ids: the repaired deleteDependencies checks its
+    candidates literally, D14) *)
 Definition good (s : state) (now : Z) : Prop :=
-  st_kind s = Linear /\ st_fail s = None /\ no_expired s now /\ ids_not_varlike s.
+  st_kind s = Linear /\ st_fail s = None /\ no_expired s now.
 
 (** [s'] is [s] with the ids of [D] removed from memory and from the storage. *)
 Definition Rm (s : state) (D : list string) (s' : state) : Prop :=
@@ -159,11 +161,9 @@ Proof. intros (_ & _ & H & _) Hj. rewrite H in Hj. destruct (mem_str j D); congr
 
 Lemma Rm_good s D s' now : good s now -> Rm s D s' -> good s' now.
 Proof.
-  intros (Hk & Hf & Hne & Hnv) HR. pose proof HR as (Hk' & Hf' & HF & _).
+  intros (Hk & Hf & Hne) HR. pose proof HR as (Hk' & Hf' & HF & _).
   repeat split; try congruence.
-  - intros j f Hj. eapply Hne. eapply Rm_sub; eauto.
-  - intros j Hj. apply Hnv. destruct (alookup j (st_facts s')) as [f|] eqn:E; [|congruence].
-    rewrite (Rm_sub _ _ _ _ _ HR E). discriminate.
+  intros j f Hj. eapply Hne. eapply Rm_sub; eauto.
 Qed.
 
 Lemma Rm_trans s D1 s1 D2 s2 : Rm s D1 s1 -> Rm s1 D2 s2 -> Rm s (D1 ++ D2) s2.
@@ -196,38 +196,50 @@ Proof.
   eapply Hc; eauto.
 Qed.
 
+(** the targets of the cascade of [x] are exactly the stored facts that name
+    [x] literally, whatever [x] looks like: the search finds them all
+    ([dw_names_hit]) and the literal check drops the others *)
+Lemma targets_exact s x (found : list (string * list bindings)) :
+  (forall j, In j (map fst found) <->
+             exists fact, alookup j (st_facts s) = Some fact /\ dw_hit x fact = true) ->
+  forall j, In j (dw_targets s x (map fst found)) <->
+            exists fact, alookup j (st_facts s) = Some fact /\ dw_names fact x = true.
+Proof.
+  intros Hfound j. rewrite dw_targets_In. split.
+  - intros [_ H]. exact H.
+  - intros (fact & Hp & Hn). split; [|eauto].
+    apply Hfound. exists fact. split; [exact Hp|]. apply dw_names_hit. exact Hn.
+Qed.
+
 Section ExactGen.
   Variable rem_rec : state -> string -> Z -> state * outcome bool.
   Variable now : Z.
-  Hypothesis Hspec : forall s j s' had, good s now -> is_var j = false ->
+  Hypothesis Hspec : forall s j s' had, good s now ->
     rem_rec s j now = (s', Ok had) -> Post s j s' had.
 
   Lemma rem_list_exact s0 skip : forall ids sc Dacc s',
-    good sc now -> Rm s0 Dacc sc -> (forall j, In j ids -> is_var j = false) ->
+    good sc now -> Rm s0 Dacc sc ->
     rem_list rem_rec sc ids skip now = (s', Ok tt) ->
     exists D', Rm s0 (Dacc ++ D') s' /\
-      (forall j, In j ids -> j <> skip -> In j D') /\
+      (forall j, In j ids -> skipped skip j = false -> In j D') /\
       (forall d, In d D' -> exists j, In j ids /\ Clo s0 j d) /\
       (forall y j fact, In y D' -> alookup j (st_facts s0) = Some fact ->
                         dw_names fact y = true -> In j (Dacc ++ D')).
   Proof.
-    induction ids as [|j ids IH]; intros sc Dacc s' Hg HR Hnv Hrl; cbn [rem_list] in Hrl.
+    induction ids as [|j ids IH]; intros sc Dacc s' Hg HR Hrl; cbn [rem_list] in Hrl.
     - inversion Hrl; subst s'. exists []. rewrite app_nil_r.
       split; [exact HR|]. repeat split; intros; cbn [In] in *; contradiction.
-    - assert (Hnv' : forall j0, In j0 ids -> is_var j0 = false) by (intros; apply Hnv; right; auto).
-      destruct (String.eqb j skip) eqn:Ej.
-      + apply String.eqb_eq in Ej. subst skip.
-        destruct (IH sc Dacc s' Hg HR Hnv' Hrl) as (D' & H1 & H2 & H3 & H4).
+    - destruct (skipped skip j) eqn:Ej.
+      + destruct (IH sc Dacc s' Hg HR Hrl) as (D' & H1 & H2 & H3 & H4).
         exists D'. split; [exact H1|]. repeat split; auto.
         * intros j0 [Hj0|Hj0] Hne; [congruence|auto].
         * intros d Hd. destruct (H3 d Hd) as (j0 & Hj0 & Hc). exists j0. split; [right|]; auto.
       + destruct (rem_rec sc j now) as [s1 o] eqn:Er.
         destruct o as [b| | |]; try discriminate.
-        assert (Hvj : is_var j = false) by (apply Hnv; left; auto).
-        destruct (Hspec sc j s1 b Hg Hvj Er) as (_ & Dj & Hj1 & Hj2 & Hj3 & Hj4).
+        destruct (Hspec sc j s1 b Hg Er) as (_ & Dj & Hj1 & Hj2 & Hj3 & Hj4).
         assert (Hg1 : good s1 now) by (eapply Rm_good; eauto).
         assert (HR1 : Rm s0 (Dacc ++ Dj) s1) by (eapply Rm_trans; eauto).
-        destruct (IH s1 (Dacc ++ Dj)%list s' Hg1 HR1 Hnv' Hrl) as (D'' & H1 & H2 & H3 & H4).
+        destruct (IH s1 (Dacc ++ Dj)%list s' Hg1 HR1 Hrl) as (D'' & H1 & H2 & H3 & H4).
         exists (Dj ++ D'')%list. rewrite app_assoc. split; [exact H1|]. repeat split; auto.
         * intros j0 [Hj0|Hj0] Hne; apply in_or_app; [left; subst; auto|right; auto].
         * intros d Hd. apply in_app_or in Hd. destruct Hd as [Hd|Hd].
@@ -243,10 +255,10 @@ Section ExactGen.
   Qed.
 
   Lemma rem_body_exact s x s' had :
-    good s now -> is_var x = false ->
+    good s now ->
     rem_body rem_rec s x now = (s', Ok had) -> Post s x s' had.
   Proof.
-    intros Hg Hx Hb. pose proof Hg as (Hk & Hf & Hne & Hnv).
+    intros Hg Hb. pose proof Hg as (Hk & Hf & Hne).
     unfold rem_body in Hb. rewrite Hk in Hb. unfold store_call in Hb. rewrite Hf in Hb.
     cbv zeta in Hb.
     match type of Hb with context [delete_dependencies rem_rec ?y x now] => set (s3 := y) in * end.
@@ -254,21 +266,20 @@ Section ExactGen.
     { unfold Rm, s3. cbn [st_kind st_fail st_facts st_store set_facts set_store mem_str].
       repeat split; auto; intros j; rewrite alookup_aremove, orb_false_r; reflexivity. }
     assert (Hg3 : good s3 now) by (eapply Rm_good; eauto).
-    pose proof Hg3 as (Hk3 & Hf3 & Hne3 & Hnv3).
+    pose proof Hg3 as (Hk3 & Hf3 & Hne3).
     unfold delete_dependencies in Hb. rewrite Hk3 in Hb.
-    destruct (search_state_pure s3 x now Hk3 Hne3) as (found & Hsearch & Hfound).
+    destruct (search_state_pure s3 x now Hk3 Hne3) as (found & Hsearch & Hfound0).
     rewrite Hsearch in Hb.
-    destruct (rem_list rem_rec s3 (map fst found) x now) as [s6 o] eqn:Erl.
+    pose proof (targets_exact s3 x found Hfound0) as Hfound.
+    destruct (rem_list rem_rec s3 (dw_targets s3 x (map fst found)) (Some x) now) as [s6 o] eqn:Erl.
     destruct o as [[]| | |]; try discriminate.
     inversion Hb; subst s6. clear Hb.
-    destruct (rem_list_exact s x (map fst found) s3 [x] s' Hg3 HR3) as (D' & R1 & R2 & R3 & R4); auto.
-    { intros j Hj. apply Hfound in Hj. destruct Hj as (f & Hp & _). apply Hnv3. congruence. }
+    destruct (rem_list_exact s (Some x) _ s3 [x] s' Hg3 HR3 Erl) as (D' & R1 & R2 & R3 & R4).
     split.
     { cbn [st_facts set_store]. reflexivity. }
     change ([x] ++ D')%list with (x :: D') in *. exists (x :: D').
-    assert (Hfound_clo : forall j, In j (map fst found) -> Clo s x j).
+    assert (Hfound_clo : forall j, In j (dw_targets s3 x (map fst found)) -> Clo s x j).
     { intros j Hj. apply Hfound in Hj. destruct Hj as (f & Hp & Hh).
-      rewrite dw_hit_names in Hh by exact Hx.
       eapply Clo_dep; [apply Clo_root| |exact Hh]. exact (Rm_sub _ _ _ _ _ HR3 Hp). }
     split; [left; reflexivity|]. split; [|split; [|exact R1]].
     - intros d [Hd|Hd]; [subst; constructor|].
@@ -277,18 +288,17 @@ Section ExactGen.
       subst y. destruct (String.eqb j x) eqn:Ej.
       + apply String.eqb_eq in Ej. subst j. left; reflexivity.
       + right. apply R2.
-        * apply Hfound. exists fact. split.
-          -- destruct HR3 as (_ & _ & HF & _). rewrite HF. cbn [mem_str]. rewrite Ej. exact Hp.
-          -- rewrite dw_hit_names by exact Hx. exact Hn.
-        * apply String.eqb_neq. exact Ej.
+        * apply Hfound. exists fact. split; [|exact Hn].
+          destruct HR3 as (_ & _ & HF & _). rewrite HF. cbn [mem_str]. rewrite Ej. exact Hp.
+        * cbn [skipped]. exact Ej.
   Qed.
 End ExactGen.
 
 Lemma rem_fuel_exact now : forall fuel s x s' had,
-  good s now -> is_var x = false ->
+  good s now ->
   rem_fuel fuel s x now = (s', Ok had) -> Post s x s' had.
 Proof.
-  induction fuel as [|f IH]; intros s x s' had Hg Hx H; cbn [rem_fuel] in H.
+  induction fuel as [|f IH]; intros s x s' had Hg H; cbn [rem_fuel] in H.
   - discriminate.
   - eapply rem_body_exact; eauto.
 Qed.
